@@ -399,6 +399,35 @@ def rule_d(ctx):
     f = m.func(IMG, "Image.append")
     other = f.params[1]
     ctx.instance(R)
+    # absence of a time / an offset is `None`, never falsiness: 0 and 0.0 are legitimate relative times and offsets
+    def truth_operands(fn):
+        out = []
+        for x in ast.walk(fn.node):
+            tests = []
+            if isinstance(x, (ast.If, ast.IfExp, ast.While)):
+                tests.append(x.test)
+            elif isinstance(x, ast.BoolOp):
+                tests.extend(x.values)
+            elif isinstance(x, ast.UnaryOp) and isinstance(x.op, ast.Not):
+                tests.append(x.operand)
+            elif isinstance(x, ast.Return) and x.value is not None and fn.name.startswith(("_is_", "is_")):
+                tests.append(x.value)
+            for t in tests:
+                while isinstance(t, ast.UnaryOp) and isinstance(t.op, ast.Not):
+                    t = t.operand
+                out.append(t)
+        return out
+    opt = [p_ for p_ in f.params[2:] if p_ == "offset"]
+    for t in truth_operands(f):
+        if isinstance(t, ast.Name) and t.id in opt:
+            ctx.ob(R, f.qname, f"the optional `{t.id}` is tested with `is None`", False, f"`{t.id}` is used as a truth value: an offset of 0 is treated as 'no offset given' and the relative times are dropped", t, evidence=True)
+    isn = m.mod(IMG).classes["Image"].methods.get("_is_none")
+    if isn is not None:
+        prm = isn.params[-1]
+        bad = [t for t in truth_operands(isn) if (isinstance(t, ast.Name) and t.id == prm) or
+               (isinstance(t, ast.Call) and norm(t.func) in ("all", "any", "bool") and any(isinstance(x, ast.Name) and x.id == prm for x in ast.walk(t)))]
+        ctx.ob(R, isn.qname, "_is_none decides by comparison with None only (a time of 0 is a time)", not bad,
+               f"`{norm(bad[0])[:60]}` is a truth-value test: a list of times that contains 0 counts as 'no time'" if bad else "", bad[0] if bad else isn.node, evidence=True)
     # slices
     st = [n for n in ast.walk(f.node) if isinstance(n, ast.Call) and norm(n.func) == "np.stack"]
     stacked = expand(f.node, st[0].args[0]) if len(st) == 1 and st[0].args else None
